@@ -775,6 +775,16 @@ func (env *SpecEnv) call(x ECall) SpecVal {
 			return SpecVal{env.heapT(env.cur, key), g.so.heaps[key], nil}
 		}
 		env.fail("no range #%d", k)
+	case "lastrecv":
+		// lastrecv(ch): the value most recently received from ch by this thread
+		ch := env.tr(x.Args[0])
+		ct, ok := ch.Go.Underlying().(*types.Chan)
+		if !ok {
+			env.fail("lastrecv: not a channel")
+		}
+		es := g.so.sortOf(ct.Elem())
+		lh := g.lastRecvHeap(es)
+		return SpecVal{fmt.Sprintf("(select %s %s)", env.heapT(env.cur, lh), ch.T), es, ct.Elem()}
 	case "sends", "closed", "chancap", "recvs":
 		ch := env.tr(x.Args[0])
 		g.chanHeaps()
